@@ -285,7 +285,6 @@ class Violation(Exception):
 def execute(plan):
     """Execute a plan; returns a JSON-able result.  Must run in a process in
     which the BDD library has never been used."""
-    sys.setrecursionlimit(10000)
     import pyModelChecking.BDD.BDD
     import pyModelChecking.BDD.OBDD
     import _weakrefset
